@@ -14,6 +14,14 @@ from props.calls import enc_all, dec_all, pretty, INT_MAX, ATOM_MAX
 PID = 'C10'
 HARNESS = 'h_c10'
 MODEL_MODULE = 'V.C10.Model'
+# The reader model is written against the abstract stream (C09 proves buffer independence); the implementation is additionally run at small
+# buffer sizes so that tokens, CR/LF pairs, comments and strings of the generated texts land on refill boundaries (seeded change C10-r4).
+VARIANTS = {'default': {}, 'N16': {'POTASSCO_VERIF_BUF_SIZE': 16}, 'N67': {'POTASSCO_VERIF_BUF_SIZE': 67}}
+
+
+def variant_of(c):
+    return ('default', 'N16', 'N67')[sum(c) % 3]
+
 READY = True
 RULE = ('cases = input texts: (a) programs (1-4 steps, all directive kinds, empty heads/bodies/aggregates, negative bounds, weights 0, minimize with '
         'negative weights, all values/modifiers, terms with arguments and strings) printed under random atom spellings (a..z, x<n>, x_<n>) and random '
@@ -301,7 +309,7 @@ def nontrivial(case, obs):
 def describe(case):
     text, prog = split(case)
     s = bytes(x & 255 for x in text).decode('latin-1').encode('unicode_escape').decode()
-    return 'text=%r' % s + (' program=' + pretty(prog) if prog is not None else '')
+    return 'buf=%s text=%r' % (variant_of(case), s) + (' program=' + pretty(prog) if prog is not None else '')
 
 
 # ------------------------------------------------------------------------------------------------
